@@ -26,6 +26,10 @@ pub const KF_READ_LOCK: &str = "kf:c26-serialization-read-locks-unverified-track
 /// with the flattened edges of its non-persisted callee's *newer* execution (the callee re-ran
 /// because its interned value had been reclaimed and interned the value again under a new id).
 /// The restored memo validates against those edges although its value (the reclaimed id) is stale.
+/// Listed finding: same walk, but the callee's memo still holds an edge to a function keyed by a
+/// tracked struct that has been deleted since: looking up that memo read-locks the deleted struct
+/// and serialization panics ("write lock taken").
+pub const KF_FLATTEN_DELETED: &str = "kf:c26-serialize-panics-on-stale-edge-to-function-of-deleted-struct";
 pub const KF_FLATTEN_STALE: &str = "kf:c26-flattened-edges-of-stale-memo-from-newer-callee-execution";
 
 pub struct Persisted {
@@ -212,24 +216,37 @@ impl Oracle for Persisted {
                     self.tainted_until_write = true;
                     self.taints += 1;
                 }
-                // listed finding KF_FLATTEN_STALE
-                if self.had_interned_reuse {
-                    for (k, vr) in self.verified.iter() {
-                        if *vr >= cx.rev_before || !persisted_key(prog, zero0, *k) {
+                // keys whose *current* memos the serializer walks when it flattens the edges of a
+                // persisted memo that is not verified in the snapshot revision: its non-persisted
+                // callees and everything below them
+                let mut stale_walk: Vec<(LKey, u32)> = vec![];
+                for (k, vr) in self.verified.iter() {
+                    if *vr >= cx.rev_before || !persisted_key(prog, zero0, *k) {
+                        continue;
+                    }
+                    let mut stack: Vec<LKey> = self.calls_last.get(k).map(|v| v.iter().copied().filter(|c| !persisted_key(prog, zero0, *c)).collect()).unwrap_or_default();
+                    let mut seen: BTreeSet<LKey> = BTreeSet::new();
+                    while let Some(c) = stack.pop() {
+                        if !seen.insert(c) {
                             continue;
                         }
-                        // non-persisted subtree below k
-                        let mut stack: Vec<LKey> = self.calls_last.get(k).cloned().unwrap_or_default();
-                        let mut seen: BTreeSet<LKey> = BTreeSet::new();
-                        while let Some(c) = stack.pop() {
-                            if persisted_key(prog, zero0, c) || !seen.insert(c) {
-                                continue;
-                            }
-                            if self.exec_rev.get(&c).copied().unwrap_or(0) > *vr {
-                                self.flatten_stale = true;
-                            }
-                            stack.extend(self.calls_last.get(&c).cloned().unwrap_or_default());
-                        }
+                        stale_walk.push((c, *vr));
+                        stack.extend(self.calls_last.get(&c).cloned().unwrap_or_default());
+                    }
+                }
+                // listed finding KF_FLATTEN_STALE
+                if self.had_interned_reuse && stale_walk.iter().any(|(c, vr)| self.exec_rev.get(c).copied().unwrap_or(0) > *vr) {
+                    self.flatten_stale = true;
+                }
+                // listed finding KF_FLATTEN_DELETED: the walk reaches a function keyed by a struct
+                // that has been deleted since
+                let walk_hits_deleted = stale_walk.iter().any(|(c, _)| match c {
+                    LKey::OnEnt(id) | LKey::OnEntSpec(id) => self.freed_ix.contains(&ix(*id)),
+                    _ => false,
+                });
+                if let Err(p) = real {
+                    if walk_hits_deleted && p.text().contains("serialize panicked: write lock taken") {
+                        out.push(viol(KF_FLATTEN_DELETED, cx.idx, p.text()));
                     }
                 }
                 if let Err(p) = real {
